@@ -78,7 +78,8 @@ def cases(spec, ctx):
         r["pics"]["class"] = rng.choice(["noise", "noise", "noise", "ramp", "checker", "mid", "zero", "mixed"])
         yield {
             "recipe": r,
-            "minq": rng.choice([0, 0, 0, 5, 40]),
+            # minimum_qindex is a single int or one int per picture
+            "minq": rng.choice([0, 0, 0, 5, 40]) if rng.random() < 0.75 else [rng.choice([0, 3, 5, 40]) for _ in range(r["pics"]["n"])],
             "mins": rng.choice([1, 1, 2, 3]),
         }
 
@@ -139,14 +140,14 @@ def run_case(case, ctx):
     from vc2_conformance.encoder import make_sequence, UnsatisfiableCodecFeaturesError
 
     recipe = case["recipe"]
-    minq, mins = case["minq"], case["mins"]
+    minq_arg, mins = case["minq"], case["mins"]
     captured = _state["captured"]
     del captured[:]
     cf = configs.build_cf(recipe)
     pics = configs.build_pictures(recipe, cf["video_parameters"])
-    key = jsonx.key_hash([recipe, minq, mins])
+    key = jsonx.key_hash([recipe, minq_arg, mins])
     try:
-        seq = make_sequence(cf, copy.deepcopy(pics), minimum_qindex=minq, minimum_slice_size_scaler=mins)
+        seq = make_sequence(cf, copy.deepcopy(pics), minimum_qindex=minq_arg, minimum_slice_size_scaler=mins)
     except UnsatisfiableCodecFeaturesError as e:
         ctx.count("encoder_rejected:" + type(e).__name__)
         ctx.seen(key, nontrivial=False)
@@ -166,6 +167,7 @@ def run_case(case, ctx):
     nontrivial = False
     expected_sizes = []
     for pi, (cp, coeffs) in enumerate(zip(coded, captured)):
+        minq = minq_arg[pi] if isinstance(minq_arg, list) else minq_arg
         slices = cp["slices"]
         if len(slices) != n:
             ctx.violation("slice-count", "picture %d has %d slices, expected %d" % (pi, len(slices), n))
@@ -273,11 +275,14 @@ def run_case(case, ctx):
     ctx.count("slices_measured", len(sizes))
     ctx.seen(key, nontrivial=nontrivial)
     ctx.count("cases:" + ("HQ" if hq else "LD"))
-    ctx.count("cases_minq:%d" % minq)
+    if isinstance(minq_arg, list):
+        ctx.count("cases_minq_per_picture_list")
+    else:
+        ctx.count("cases_minq:%d" % minq_arg)
     if recipe["fsc"]:
         ctx.count("cases_fragmented")
     if ctx.rng.random() < 0.004:
-        ctx.sample({"recipe": recipe, "minq": minq, "mins": mins})
+        ctx.sample({"recipe": recipe, "minq": minq_arg, "mins": mins})
 
 
 def floor(agg, tier):
@@ -290,7 +295,7 @@ def floor(agg, tier):
         miss.append("fewer than %d slices judged" % (5000 * scale))
     if c.get("slices_qindex_above_minimum", 0) < 1000 * scale:
         miss.append("fewer than %d slices needed a qindex above the minimum" % (1000 * scale))
-    for k in ("cases:HQ", "cases:LD", "cases_minq:5", "cases_minq:40", "cases_fragmented", "hq_scaler:2", "hq_scaler:3"):
+    for k in ("cases:HQ", "cases:LD", "cases_minq:5", "cases_minq:40", "cases_minq_per_picture_list", "cases_fragmented", "hq_scaler:2", "hq_scaler:3"):
         if c.get(k, 0) < 20:
             miss.append("stratum %s observed fewer than 20 times" % k)
     if c.get("slices_measured", 0) < 5000 * scale:
